@@ -9,6 +9,7 @@ import (
 	"fmt"
 	"reflect"
 	"sort"
+	"sync"
 )
 
 // ---------------------------------------------------------------- map-order seam (M)
@@ -86,13 +87,39 @@ type Hook interface {
 // H is the installed hook; nil means: shims use the real primitives, events are dropped.
 var H Hook
 
+// Objects whose addresses identify locations are kept alive until the harness starts its next execution, so that
+// an address is never reused for another object within one execution (a reused address would look like a race).
+var (
+	keepMu sync.Mutex
+	keep   []any
+)
+
+func retain(x any) {
+	keepMu.Lock()
+	keep = append(keep, x)
+	keepMu.Unlock()
+}
+
+// ResetKeep is called by the harness at the start of an execution.
+func ResetKeep() {
+	keepMu.Lock()
+	keep = nil
+	keepMu.Unlock()
+}
+
 func ptrOf(f func() any) (p uintptr, ok bool) {
 	defer func() {
 		if recover() != nil {
 			ok = false
 		}
 	}()
-	v := reflect.ValueOf(f())
+	x := f()
+	defer func() {
+		if ok {
+			retain(x)
+		}
+	}()
+	v := reflect.ValueOf(x)
 	switch v.Kind() {
 	case reflect.Pointer, reflect.Map, reflect.UnsafePointer, reflect.Chan, reflect.Func, reflect.Slice:
 		if v.IsNil() {
@@ -130,6 +157,116 @@ func MapAcc(m func() any, write bool, site string) {
 	if p, ok := ptrOf(m); ok {
 		h.Access(p, "map", write, site)
 	}
+}
+
+// ---- slice elements: the location is the address of the element in the backing array, so slices that share a backing
+// array (a slice stored in a shared structure and appended to within its capacity by two callers) meet on the same location.
+
+const sliceEventCap = 64 // element-wise events for at most this many elements of one slice operation
+
+func sliceOf(f func() any) (v reflect.Value, ok bool) {
+	defer func() {
+		if recover() != nil {
+			ok = false
+		}
+	}()
+	x := f()
+	v = reflect.ValueOf(x)
+	if v.Kind() != reflect.Slice || v.IsNil() || v.Type().Elem().Size() == 0 {
+		return v, false
+	}
+	retain(x)
+	return v, true
+}
+
+func elems(h Hook, v reflect.Value, from, to int, write bool, site string) {
+	if to-from > sliceEventCap {
+		to = from + sliceEventCap
+	}
+	size := v.Type().Elem().Size()
+	for i := from; i < to; i++ {
+		h.Access(v.Pointer()+uintptr(i)*size, "slice element", write, site)
+	}
+}
+
+func intOf(f func() int) (n int, ok bool) {
+	defer func() {
+		if recover() != nil {
+			ok = false
+		}
+	}()
+	return f(), true
+}
+
+// SliceAppend: append(s, <n elements>) writes the elements [len, len+n) of the backing array when they fit its capacity.
+func SliceAppend(s func() any, n func() int, site string) {
+	h := H
+	if h == nil {
+		return
+	}
+	v, ok := sliceOf(s)
+	k, ok2 := intOf(n)
+	if !ok || !ok2 || k <= 0 || v.Len()+k > v.Cap() {
+		return
+	}
+	full := v.Slice(0, v.Cap())
+	elems(h, full, v.Len(), v.Len()+k, true, site)
+}
+
+// SliceIdx: s[i] read or written.
+func SliceIdx(s func() any, i func() int, write bool, site string) {
+	h := H
+	if h == nil {
+		return
+	}
+	v, ok := sliceOf(s)
+	k, ok2 := intOf(i)
+	if !ok || !ok2 || k < 0 || k >= v.Len() {
+		return
+	}
+	elems(h, v, k, k+1, write, site)
+}
+
+// SliceAll: every element read (range) or written.
+func SliceAll(s func() any, write bool, site string) {
+	h := H
+	if h == nil {
+		return
+	}
+	if v, ok := sliceOf(s); ok {
+		elems(h, v, 0, v.Len(), write, site)
+	}
+}
+
+// SliceCopy: copy(dst, src).
+func SliceCopy(dst, src func() any, site string) {
+	h := H
+	if h == nil {
+		return
+	}
+	d, ok := sliceOf(dst)
+	if !ok {
+		return
+	}
+	n := d.Len()
+	if sv, ok := sliceOf(src); ok {
+		if sv.Len() < n {
+			n = sv.Len()
+		}
+		elems(h, sv, 0, n, false, site)
+	} else if x, ok2 := func() (x any, ok bool) {
+		defer func() {
+			if recover() != nil {
+				ok = false
+			}
+		}()
+		return src(), true
+	}(); ok2 {
+		if str, isStr := x.(string); isStr && len(str) < n {
+			n = len(str)
+		}
+	}
+	elems(h, d, 0, n, true, site)
 }
 
 // Unmodelled reports a construct the scheduler seam cannot model (go statement, channel operation, select).
